@@ -269,6 +269,46 @@ func methodOfSyncType(sel *types.Selection) bool {
 	return isSyncType(sig.Recv().Type())
 }
 
+// pkgRoot: e is a path (field selections, indexing, slicing, dereference, address-of) that starts
+// at a package-level variable and is not that variable alone; returns the variable's name.
+func (in *instr) pkgRoot(e ast.Expr) (string, bool) {
+	depth := 0
+	for {
+		switch x := e.(type) {
+		case *ast.ParenExpr:
+			e = x.X
+		case *ast.SelectorExpr:
+			if sel := in.info.Selections[x]; sel == nil || sel.Kind() != types.FieldVal {
+				return "", false
+			}
+			e = x.X
+			depth++
+		case *ast.IndexExpr:
+			e = x.X
+			depth++
+		case *ast.SliceExpr:
+			e = x.X
+			depth++
+		case *ast.StarExpr:
+			e = x.X
+			depth++
+		case *ast.UnaryExpr:
+			if x.Op != token.AND {
+				return "", false
+			}
+			e = x.X
+			depth++
+		case *ast.Ident:
+			if depth > 0 && in.pkgVar(x) {
+				return x.Name, true
+			}
+			return "", false
+		default:
+			return "", false
+		}
+	}
+}
+
 func isRefType(t types.Type) bool {
 	switch t.Underlying().(type) {
 	case *types.Map, *types.Slice:
@@ -674,6 +714,27 @@ func (in *instr) function(fd *ast.FuncDecl) {
 						newAliases = append(newAliases, func() { aliases[o] = a })
 						continue
 					}
+					if call, ok := st.Rhs[i].(*ast.CallExpr); ok {
+						// a local bound to what a method of (a part of) a package-level variable returned - a
+						// slice, map or pointer into that variable's state (buf.Bytes()): using the local is
+						// an access to the variable
+						if se, ok := call.Fun.(*ast.SelectorExpr); ok {
+							if sel := in.info.Selections[se]; sel != nil && sel.Kind() == types.MethodVal && !methodOfSyncType(sel) {
+								root, rooted := in.pkgRoot(se.X)
+								if id, isID := se.X.(*ast.Ident); isID && in.pkgVar(id) {
+									root, rooted = id.Name, true
+								}
+								if rooted {
+									switch tv.Type.Underlying().(type) {
+									case *types.Slice, *types.Map, *types.Pointer:
+										o, a := o, alias{"", root}
+										newAliases = append(newAliases, func() { aliases[o] = a })
+									}
+								}
+							}
+						}
+						continue
+					}
 					if !isRefType(tv.Type) {
 						continue
 					}
@@ -717,6 +778,25 @@ func (in *instr) function(fd *ast.FuncDecl) {
 						}
 					}
 				case *ast.CallExpr:
+					// a method called on a PART of a package-level variable (scratch.buf.Reset()) is an access
+					// to that variable - a write unless the method is a known reader; the address of such a
+					// part handed to a callee (fmt.Fprintf(&scratch.buf, ...)) is a write
+					if se, ok := x.Fun.(*ast.SelectorExpr); ok {
+						if sel := in.info.Selections[se]; sel != nil && sel.Kind() == types.MethodVal && !methodOfSyncType(sel) {
+							if root, ok := in.pkgRoot(se.X); ok {
+								add(probe{field: root, write: !readerMethods[se.Sel.Name]})
+							}
+						}
+					}
+					for _, a := range x.Args {
+						if u, ok := a.(*ast.UnaryExpr); ok && u.Op == token.AND {
+							if root, ok := in.pkgRoot(u); ok {
+								if tv, known := in.info.Types[u.X]; !known || !isSyncType(tv.Type) {
+									add(probe{field: root, write: true})
+								}
+							}
+						}
+					}
 					// a method call on a package-level variable may mutate it (shared hasher, cache, pool)
 					if se, ok := x.Fun.(*ast.SelectorExpr); ok {
 						if id, ok := se.X.(*ast.Ident); ok {
